@@ -102,6 +102,19 @@ def apply(event, cname, args):
     if n == "remainder" and len(xs) == 2:
         q = xs[0] / xs[1]
         return Num("double", z3.If(xs[1] == 0, event.free_function("remainder0", args).t, xs[0] - xs[1] * _rint_even(q)))
+    if n == "pow" and len(xs) == 2:
+        e = z3.simplify(xs[1])
+        if z3.is_rational_value(e) or z3.is_int_value(e):
+            try:
+                k = e.as_fraction() if z3.is_rational_value(e) else None
+                k = int(k) if k is not None and k.denominator == 1 else (e.as_long() if z3.is_int_value(e) else None)
+            except Exception:  # noqa: BLE001
+                k = None
+            if k is not None and 0 <= k <= 4:
+                r = z3.RealVal(1)
+                for _ in range(k):
+                    r = r * xs[0]
+                return Num("double", r)      # a literal small integer power is the exact product
     return event.free_function(n, args)
 
 
